@@ -14,7 +14,7 @@ RULE = (
     "case = (family, class table with a subclass edge, per-element class and attribute vector incl. value-equal "
     "duplicates, structural history as in C07, requested type incl. a foreign one, filter dict over 0-3 attributes "
     "with matching / non-matching / None values). Observed on the real container: list(of_type(t)), "
-    "get_*_of_type(t, **filter) (shape None / element / list), iteration after the getter, iteration after "
+    "get_*_of_type(t, **filter) (shape None / element / list), iteration and len() after the getter, iteration and len() after "
     "remove_*_of_type. Compared with the Lean model and with Spec.C08.holds on the abstract list. "
     "Exhaustive part: all containers of <=4 elements x 3 classes x 2 attribute values x all types x filters. "
     "non-trivial = at least one member is an instance of the requested type; distinct by full case."
@@ -115,8 +115,10 @@ def run_impl(case):
         else:
             out["get"] = {"shape": "one", "x": oid(ident, g)}
         out["iter_after_get"] = [oid(ident, x) for x in capped_iter(c, fuel)]
+        out["len_after_get"] = len(c) if len(out["iter_after_get"]) < fuel else fuel
         getattr(c, remover)(t, **kwargs)
         out["iter_after_remove"] = [oid(ident, x) for x in capped_iter(c, fuel)]
+        out["len_after_remove"] = len(c) if len(out["iter_after_remove"]) < fuel else fuel
     except Exception as e:
         return {"exc": type(e).__name__, "msg": str(e)[:200]}
     return out
@@ -124,7 +126,7 @@ def run_impl(case):
 
 def request(case, obs):
     if "exc" in obs or "harness_exc" in obs:
-        obs2 = {"of_type": [], "get": {"shape": "none"}, "iter_after_get": [], "iter_after_remove": []}
+        obs2 = {"of_type": [], "get": {"shape": "none"}, "iter_after_get": [], "len_after_get": 0, "iter_after_remove": [], "len_after_remove": 0}
     else:
         obs2 = obs
     return {
